@@ -133,7 +133,7 @@ def run(ctx):
                 found_classes[c] += 1
 
     # ---- Table.Sort driven directly
-    sorts = T.htable(["-mode", "sort", "-n", 300 * mult, "-seed", seed])
+    sorts = T.htable(["-mode", "sort", "-n", 200 * mult, "-seed", seed])
     codes = T.coq_verdicts(ctx, "c12_sort", [sort_item(c) for c in sorts])
     dist = collections.Counter()
     for c, v in zip(sorts, codes):
@@ -145,7 +145,7 @@ def run(ctx):
         elif v == 4:
             excuse(c, value_order_classes(c["in"], [k["b"] for k in c["cfg"]]), "ORDER BY output not in value order")
     # ---- Table.Limit
-    limits = T.htable(["-mode", "limit", "-n", 100 * mult, "-seed", seed])
+    limits = T.htable(["-mode", "limit", "-n", 60 * mult, "-seed", seed])
     lcodes = T.coq_verdicts(ctx, "c12_limit", [limit_item(c) for c in limits])
     for c, v in zip(limits, lcodes):
         dist["limit:%s:%d" % (c["outcome"], v)] += 1
@@ -165,7 +165,7 @@ def run(ctx):
         if good and c["outcome"] != "ok":
             ctx.violation({"kind": "valid LIMIT rejected", "case": c})
     # ---- end to end
-    e2e = T.htable(["-mode", "e2e12", "-n", 150 * mult, "-seed", seed])
+    e2e = T.htable(["-mode", "e2e12", "-n", 120 * mult, "-seed", seed])
     ecodes = T.coq_verdicts(ctx, "c12_e2e", [e2e_item(c) for c in e2e], shard=300)
     bad_outcomes = 0
     for c, v in zip(e2e, ecodes):
